@@ -28,6 +28,31 @@ COMPONENT_FAULTS = [
     ('math-empty-ci-in-bvar', '<variable name="zz" units="second"/><variable name="zt" units="second"/>' + MATH % ('<apply><diff/><bvar><ci></ci></bvar><ci>zz</ci></apply>', '<ci>zt</ci>'), ['MATH_CI_VARIABLE_REFERENCE', 'MATH_MATHML']),
     ('math-empty-ci-in-degree', '<variable name="zz" units="second"/>' + MATH % ('<ci>zz</ci>', '<apply><root/><degree><ci></ci></degree><ci>zz</ci></apply>'), ['MATH_CI_VARIABLE_REFERENCE', 'MATH_MATHML']),
     ('math-unsupported-element-in-logbase', '<variable name="zz" units="second"/>' + MATH % ('<ci>zz</ci>', '<apply><log/><logbase><apply><foo/><ci>zz</ci></apply></logbase><ci>zz</ci></apply>'), ['MATH_MATHML', 'MATH_CHILD']),
+] + [
+    # every MathML fault at every kind of location (the validator walks the tree twice: references and units, then arity / cn format)
+    ('math-%s-at-%s' % (fn, ln), '<variable name="zz" units="second"/>' + MATH % ('<ci>zz</ci>', loc % frag), rules)
+    for fn, frag, rules in [
+        ('missing-variable', '<ci>nosuch</ci>', ['MATH_CI_VARIABLE_REFERENCE']),
+        ('cn-without-units', '<cn>1</cn>', ['MATH_CN_UNITS_ATTRIBUTE']),
+        ('cn-unknown-units', '<cn cellml:units="no_units">1</cn>', ['MATH_CN_UNITS_ATTRIBUTE_REFERENCE', 'MATH_CN_UNITS_ATTRIBUTE']),
+        ('unsupported-element', '<apply><foo/><ci>zz</ci></apply>', ['MATH_MATHML', 'MATH_CHILD']),
+        ('empty-ci', '<ci></ci>', ['MATH_CI_VARIABLE_REFERENCE', 'MATH_MATHML']),
+        ('cn-not-a-number', '<cn cellml:units="second">one</cn>', ['MATH_CN_FORMAT', 'MATH_CN_BASE10']),
+        ('cn-base-two', '<cn cellml:units="second" base="2">101</cn>', ['MATH_CN_BASE10', 'MATH_CN_FORMAT', 'MATH_MATHML']),
+        ('relation-with-one-operand', '<apply><gt/><ci>zz</ci></apply>', ['MATH_MATHML']),
+        ('divide-with-three-operands', '<apply><divide/><ci>zz</ci><ci>zz</ci><ci>zz</ci></apply>', ['MATH_MATHML'])]
+    for ln, loc in [
+        ('operand', '<apply><plus/><ci>zz</ci>%s</apply>'),
+        ('first-operand', '<apply><times/>%s<ci>zz</ci></apply>'),
+        ('nested-operand', '<apply><plus/><ci>zz</ci><apply><minus/><apply><sin/>%s</apply></apply></apply>'),
+        ('piece-value', '<piecewise><piece>%s<apply><gt/><ci>zz</ci>' + CN + '</apply></piece><otherwise>' + CN + '</otherwise></piecewise>'),
+        ('piece-condition', '<piecewise><piece>' + CN + '%s</piece><otherwise>' + CN + '</otherwise></piecewise>'),
+        ('inside-piece-condition', '<piecewise><piece>' + CN + '<apply><and/><apply><gt/><ci>zz</ci>' + CN + '</apply>%s</apply></piece><otherwise>' + CN + '</otherwise></piecewise>'),
+        ('second-piece-condition', '<piecewise><piece>' + CN + '<apply><gt/><ci>zz</ci>' + CN + '</apply></piece><piece>' + CN + '%s</piece></piecewise>'),
+        ('otherwise', '<piecewise><piece>' + CN + '<apply><gt/><ci>zz</ci>' + CN + '</apply></piece><otherwise>%s</otherwise></piecewise>'),
+        ('degree', '<apply><root/><degree>%s</degree><ci>zz</ci></apply>'),
+        ('logbase', '<apply><log/><logbase>%s</logbase><ci>zz</ci></apply>')]
+] + [
     ('math-cn-not-a-number', '<variable name="zz" units="second"/>' + MATH % ('<ci>zz</ci>', '<cn cellml:units="second">one</cn>'), ['MATH_CN_FORMAT', 'MATH_CN_BASE10']),
     ('reset-without-order', '<variable name="ra" units="second"/><variable name="rb" units="second"/><reset variable="ra" test_variable="rb">' + TV % CN + RV % CN + '</reset>', ['RESET_ORDER_VALUE', 'RESET_ATTRIBUTE_REQUIRED']),
     ('reset-without-test-value', '<variable name="ra" units="second"/><variable name="rb" units="second"/><reset variable="ra" test_variable="rb" order="901">' + RV % CN + '</reset>', ['RESET_TEST_VALUE_CHILD', 'RESET_CHILD', 'TEST_VALUE_CHILD', 'TEST_VALUE_ELEMENT']),
